@@ -156,6 +156,10 @@ def run_core(cases, shards=8, fuel=None, timeout_ms=10000, spec=False, spec_fuel
                 dis.append({"layer": "CORR-E2E", "case": i, "text": ti, "go": go_m[:300], "model": model.to_sexp(mo)})
                 continue
             ms = model.to_sexp(mo[1])
+            nonascii = any(ord(ch) > 127 for ch in t)
+            if nonascii:
+                # columns count characters in the implementation and bytes in the model (DESIGN 5): on texts with bytes >= 0x80 they are left out of the comparison
+                ms, go_m = mask_columns(ms), mask_columns(go_m)
             if go_m != "()":
                 stats["texts_with_match"] += 1
             if ms != go_m:
@@ -166,6 +170,8 @@ def run_core(cases, shards=8, fuel=None, timeout_ms=10000, spec=False, spec_fuel
                 bo = bouts[ti]
                 if bo[0] == "ok":
                     bs = model.to_sexp(bo[1])
+                    if nonascii:
+                        bs = mask_columns(bs)
                     if bs != go_m:
                         dis.append({"layer": "CORR-VM", "case": i, "text": ti, "go": go_m, "model": bs})
                     else:
@@ -173,6 +179,18 @@ def run_core(cases, shards=8, fuel=None, timeout_ms=10000, spec=False, spec_fuel
     if spec:
         spec_compare(cases, gres, mres, dis, stats)
     return gres, dis, stats
+
+
+def mask_columns(sx):
+    """the same list of matches with the two column fields blanked"""
+    try:
+        ms = model.parse_sexp(sx)
+        for m in ms:
+            if isinstance(m, list) and len(m) > 7 and m[0] == "m":
+                m[6] = m[7] = "_"
+        return model.to_sexp(ms)
+    except Exception:
+        return sx
 
 
 def window_of(cmd_ast):
